@@ -31,6 +31,9 @@ OpMatch(r, e) ==
 OpsMatch(logged, model) ==
   /\ Len(logged) = Len(model)
   /\ \A k \in 1 .. Len(logged) : OpMatch(logged[k], model[k])
+\* AUX_OPS = "1": the transcript operations inside the inner-product argument are compared too. Off by default: C10 speaks about openings,
+\* rounds and verdicts; which operations bind them is C06's / C18's statement and is judged on the full protocol traces.
+CmpOps == "AUX_OPS" \in DOMAIN IOEnv /\ IOEnv.AUX_OPS = "1"
 
 (* C13 *)
 Pedersen ==
@@ -51,7 +54,7 @@ IppCreate ==
         \/ /\ Ev.res = "ok"
            /\ Ev.proof = [L |-> m.L, R |-> m.R, a |-> m.a, b |-> m.b]
            /\ Len(m.L) = Lg(Ev.n) /\ Pow2(Len(m.L)) = Ev.n          \* exactly k rounds
-           /\ OpsMatch(Ev.tx, CreateOps(Ev.n, m))
+           /\ CmpOps => OpsMatch(Ev.tx, CreateOps(Ev.n, m))
            /\ Ev.P = Statement(Ev.a, Ev.b, Gp, Hp, Ev.Q)            \* the harness' statement point
            \* the unrolled first round equals the generic round on pre-scaled generators
            /\ Ev.n > 1 => FirstRound(Ev.a, Ev.b, Ev.G, Ev.H, Ev.Gf, Ev.Hf, Ev.Q, Ev.ch[1])
@@ -76,9 +79,9 @@ IppVerify ==
          us == [j \in 1 .. Len(pf.L) |-> IF j <= Len(Ev.ch) THEN Ev.ch[j] ELSE 1]
          nz == \A j \in 1 .. Len(us) : us[j] # 0
          Gp == Had(Ev.Gf, Ev.G)  Hp == Had(Ev.Hf, Ev.H)
-     IN IF ~shape THEN Ev.res = "VerificationError" /\ Ev.tx = << >>
-        ELSE IF ~rv.ok THEN Ev.res = "VerificationError" /\ OpsMatch(Ev.tx, rv.ops)
-        ELSE /\ OpsMatch(Ev.tx, rv.ops)
+     IN IF ~shape THEN Ev.res = "VerificationError" /\ (CmpOps => Ev.tx = << >>)
+        ELSE IF ~rv.ok THEN Ev.res = "VerificationError" /\ (CmpOps => OpsMatch(Ev.tx, rv.ops))
+        ELSE /\ CmpOps => OpsMatch(Ev.tx, rv.ops)
              /\ (Ev.res = "ok") <=> VerifyMsm(Ev.n, pf, us, Ev.Gf, Ev.Hf, Ev.P, Ev.Q, Ev.G, Ev.H)
              /\ Ev.res \in {"ok", "VerificationError"}
              \* IppEqFold: the verdict coincides with explicitly folding the generators
